@@ -13,6 +13,7 @@ def run(ctx):
     RK.classes_resized(ctx, "R15.f")
     RK.normalize_assigns_together(ctx, "R15.f")
     RL.reductions_never_shrink(ctx, "R15.g")
+    RL.reduce_equal_length(ctx, "R15.m")
     RK.word_shape_rules(ctx, "R15.h")
     RK.class_predicates(ctx, "R15.i")
     RK.text_methods_use_chars(ctx, "R15.j")
